@@ -64,6 +64,15 @@ class WorkingHours:
         # If no hours are set, onShift will fall back to project default
         self._custom_hours_set = False
 
+    def __deepcopy__(self, memo: dict[int, Any]) -> "WorkingHours":
+        # The hours are copied, the project they belong to is not: copy.deepcopy() would follow the project
+        # reference and clone every task and resource - with the clones made for earlier inheritors - each
+        # time a resource inherits its group's working hours.
+        clone = WorkingHours(self.project)
+        clone._hours = {day: list(intervals) for day, intervals in self._hours.items()}
+        clone._custom_hours_set = self._custom_hours_set
+        return clone
+
     def set_hours(self, days: list[str], ranges: list[tuple[str, str]]) -> None:
         """
         Set working hours for specific days.
